@@ -37,6 +37,11 @@ def run(repo: Repo, rep: Report):
 
 _S = "svg"
 VARIANTS = [
+    Variant("children of a clipPath take the clip-rule of the element that references the clip",
+            [Edit(_S, "SVG._resolve_clip_path", "from_element(e).apply_transform(", "from_element(e, **({\"clip-rule\": self._ref_rule} if self._ref_rule and \"clip-rule\" not in e.attrib else {})).apply_transform("),
+             Edit(_S, "SVG._traverse", "                    clips += (\n", "                    self._ref_rule = child.attrib.get(\"clip-rule\")\n                    clips += (\n"),
+             Edit(_S, "SVG._resolve_clip_path", "        clip_path_el = self.resolve_url(clip_path_url, \"clipPath\")\n", "        clip_path_el = self.resolve_url(clip_path_url, \"clipPath\")\n        self._ref_rule = self.__dict__.get(\"_ref_rule\")\n")],
+            [("R-SITE.cascade", "_traverse")], allow_analysis_error=True),
     Variant("silent: clips paired with the fill_rule of the resolved clip (always nonzero, as its clip_rule)", [Edit(_S, "SVG._simplify", "*(c.clip_rule for c in context.clips),", "*(c.fill_rule for c in context.clips),")], silent=True),
     Variant("shape clipped under the clip's rule", [Edit(_S, "SVG._simplify", "                                    p.fill_rule,\n                                    *(c.clip_rule for c in context.clips),", "                                    *(c.clip_rule for c in context.clips),\n                                    p.fill_rule,")], [("R-ORDER.clip-application", "_simplify")]),
     Variant("view-box clip under the wrong rule", [Edit(_S, "SVG.clip_to_viewbox", "fill_rules=(shape.fill_rule, clip_path.clip_rule)", "fill_rules=(clip_path.clip_rule, shape.fill_rule)")], [("R-SITE.rule-provenance", "clip_to_viewbox")]),
